@@ -17,6 +17,7 @@ import (
 	"github.com/yuin/goldmark/extension"
 	extast "github.com/yuin/goldmark/extension/ast"
 	"github.com/yuin/goldmark/text"
+	gmutil "github.com/yuin/goldmark/util"
 
 	"verif/harness/internal/rep"
 	"verif/harness/internal/shard"
@@ -30,6 +31,7 @@ type c19Inl struct {
 	K    string
 	T    string
 	Kids []c19Inl
+	P    string // kind "lit": the way the visible text T is written in the Markdown source (an escape or a character reference)
 }
 
 type c19Item struct {
@@ -56,6 +58,7 @@ type c19Blk struct {
 func tx(s string) c19Inl                 { return c19Inl{K: "t", T: s} }
 func sp(k string, kids ...c19Inl) c19Inl { return c19Inl{K: k, Kids: kids} }
 func cd(s string) c19Inl                 { return c19Inl{K: "code", T: s} }
+func lit(visible, written string) c19Inl { return c19Inl{K: "lit", T: visible, P: written} }
 
 var (
 	c19Soft = c19Inl{K: "soft"}
@@ -74,6 +77,12 @@ func c19PrintInl(in []c19Inl) string {
 	for _, x := range in {
 		switch x.K {
 		case "t":
+			b.WriteString(x.T)
+		case "lit":
+			b.WriteString(x.P)
+		case "auto":
+			b.WriteString("<" + x.T + ">")
+		case "bare":
 			b.WriteString(x.T)
 		case "em":
 			b.WriteString("*" + c19PrintInl(x.Kids) + "*")
@@ -264,7 +273,7 @@ func (c *c19Canon) close()        { c.flush(); c.b.WriteString(")") }
 func c19CanonTreeInl(c *c19Canon, in []c19Inl) {
 	for _, x := range in {
 		switch x.K {
-		case "t":
+		case "t", "lit":
 			c.text(x.T)
 		case "soft":
 			c.brk("soft")
@@ -272,6 +281,10 @@ func c19CanonTreeInl(c *c19Canon, in []c19Inl) {
 			c.brk("hard")
 		case "code":
 			c.open("code")
+			c.text(x.T)
+			c.close()
+		case "auto", "bare":
+			c.open("autolink")
 			c.text(x.T)
 			c.close()
 		case "math":
@@ -357,6 +370,35 @@ func c19CanonTree(doc []c19Blk) string {
 
 var c19RefMD goldmark.Markdown
 var c19RefOnce sync.Once
+
+// c19RefText is the visible text of a text node of the third-party parser's tree, resolved the way that
+// parser's own renderers resolve it (backslash escapes and character references).
+func c19RefText(t *ast.Text, src []byte) string {
+	v := t.Segment.Value(src)
+	if t.IsRaw() {
+		return string(v)
+	}
+	var b strings.Builder
+	for i := 0; i < len(v); i++ {
+		if v[i] == '\\' && i+1 < len(v) && gmutil.IsPunct(v[i+1]) {
+			b.WriteByte(v[i+1])
+			i++
+			continue
+		}
+		if v[i] == '&' {
+			if end := strings.IndexByte(string(v[i:]), ';'); end > 1 && end <= 32 {
+				ref := v[i : i+end+1]
+				if res := gmutil.ResolveNumericReferences(gmutil.ResolveEntityNames(ref)); string(res) != string(ref) {
+					b.Write(res)
+					i += end
+					continue
+				}
+			}
+		}
+		b.WriteByte(v[i])
+	}
+	return b.String()
+}
 
 func c19CanonAST(src []byte) string {
 	c19RefOnce.Do(func() {
@@ -445,7 +487,7 @@ func c19CanonAST(src []byte) string {
 			c.close()
 		case ast.KindText:
 			t := n.(*ast.Text)
-			c.text(string(t.Segment.Value(src)))
+			c.text(c19RefText(t, src))
 			if t.HardLineBreak() {
 				c.brk("hard")
 			} else if t.SoftLineBreak() {
@@ -468,6 +510,10 @@ func c19CanonAST(src []byte) string {
 		case ast.KindLink:
 			c.open("link")
 			kids(n)
+			c.close()
+		case ast.KindAutoLink:
+			c.open("autolink")
+			c.text(string(n.(*ast.AutoLink).Label(src)))
 			c.close()
 		case extast.KindStrikethrough:
 			c.open("strike")
@@ -551,6 +597,24 @@ func c19InlineVariants() (names []string, vs [][]c19Inl, oneLine []bool) {
 	add("em>code", true, sp("em", cd("a")))
 	add("strong>code", true, sp("strong", cd("a")))
 	add("em>link", true, sp("em", sp("link", tx("a"))))
+	// visible characters written as backslash escapes and character references
+	add("escape-star", true, tx("a"), lit("*", "\\*"), tx("b"))
+	add("escape-underscore-hash", true, lit("_", "\\_"), tx("a"), lit("#", "\\#"))
+	add("escape-at-start", true, lit("#", "\\#"), tx(" a"))
+	add("escape-in-em", true, sp("em", tx("a"), lit("*", "\\*")))
+	add("entity-amp", true, tx("a "), lit("&", "&amp;"), tx(" b"))
+	add("entity-numeric", true, tx("a"), lit("#", "&#35;"), lit("漢", "&#x6F22;"), tx("1"))
+	add("escaped-entity", true, lit("&", "\\&"), tx("amp; b"))
+	add("entity-at-start", true, lit("&", "&amp;"), tx(" a"))
+	add("entity-after-span", true, sp("em", tx("a")), lit("<", "&lt;"), tx("b"))
+	add("escape-after-span", true, sp("strong", tx("a")), lit("*", "\\*"))
+	add("entity-only", true, lit("©", "&copy;"))
+	// links whose visible text is the address itself
+	add("autolink", true, tx("a "), c19Inl{K: "auto", T: "http://x.y"}, tx(" b"))
+	add("autolink-only", true, c19Inl{K: "auto", T: "http://x.y/1"})
+	add("autolink-mail", true, tx("a "), c19Inl{K: "auto", T: "a@b.c"})
+	add("bare-url", true, tx("a "), c19Inl{K: "bare", T: "http://x.y"}, tx(" b"))
+	add("bare-www", true, c19Inl{K: "bare", T: "www.x.y"}, tx(" b"))
 	add("hard", false, tx("a"), c19Inl{K: "hard"}, tx("b"))
 	add("hard-backslash", false, tx("a"), c19Inl{K: "hardbs"}, tx("b"))
 	return
@@ -588,6 +652,11 @@ func c19SingleDocs() []c19Doc {
 		add("quote/"+names[i], c19Blk{K: "quote", Kids: []c19Blk{para(v...)}})
 		if one[i] {
 			add("h2/"+names[i], head(2, v...))
+			// (text with ':' or '-' is not put into table cells: when table support is switched off the
+			// judge treats the characters of the delimiter row as unobservable)
+			if strings.ContainsAny(c19PrintInl(v), ":-") {
+				continue
+			}
 			t := c19Table("nn", []string{"漢", "1"}, []string{"", "b"})
 			t.Rows[1][0] = v
 			add("cell/"+names[i], t)
